@@ -76,7 +76,7 @@ func catalogue(tier string) []cfg {
 		fullMax = 5
 	}
 	bnd := func(n int) int { // deviation bound on the non-free axes (merge variants, instances, history)
-		if th && n <= 4 {
+		if th && n <= 3 {
 			return 2
 		}
 		return 1
